@@ -96,6 +96,9 @@ pub struct FnSpec {
     pub stub: bool,
     /// copy the source text of the function exactly (no rewrite rule): used for the Kani harness crate
     pub verbatim: bool,
+    /// outlined closure: the first params of `params=` are the closure's own parameters, in order (a closure
+    /// parameter named differently is re-bound at the start of the body)
+    pub bind: bool,
     pub closure_spans: Vec<(usize, (usize, usize))>,
     pub pin_idents: BTreeSet<String>,
     pub ref_params: BTreeSet<String>,
@@ -326,6 +329,7 @@ pub fn parse_spec(text: &str, prelude_dir: &str) -> Result<Unit, String> {
                 f.params = kv(&ws, "params").map(|s| s.to_string());
                 f.self_as = kv(&ws, "selfas").map(|s| s.to_string());
                 f.verbatim = flag(&ws, "verbatim");
+                f.bind = flag(&ws, "bind");
                 if flag(&ws, "assumed") {
                     // an assumed function: its real signature (rewritten by the rules) with the contract of the
                     // spec, body external.  A changed signature no longer matches the contract -> refusal, not silence.
